@@ -1,7 +1,7 @@
 //! Generator for the `frame` component (C10): every frame kind of quinn-proto/src/frame.rs.
 use crate::{hex, Rng, Runner};
 
-pub const FRAME_RULE: &str = "case = up to maxops steps; a step is (a) a well-formed frame of a random kind (all 24 kinds, every OFF/LEN/FIN and ECN/dir/close-form combination) with boundary-biased fields (varint size boundaries 2^6/2^14/2^30/2^62, payload lengths around 63/64 and 16383/16384, cid length 1/20, ack chains that end exactly at 0) -> enc, dec(enc ++ tail), oracle decode(encode f) renders f and consumes exactly the encoding; (b) the same as last frame of a packet (length-less STREAM/DATAGRAM); (c) CONNECTION/APPLICATION_CLOSE under a max_len around the truncation threshold, oracle: same code, reason = the announced prefix; (d) a packet payload of several frames through Iter, oracle: the same list; (e) encoder preconditions violated (values >= 2^62, ill-formed ack chains) -> err/panic agreement only; (f) malformed: random bytes with a plausible type byte, truncated / bit-flipped / spliced valid encodings -> dec and iter, oracle: never panics. non-trivial = a multi-byte varint, a payload, or an error response occurred";
+pub const FRAME_RULE: &str = "case = up to maxops steps; a step is (a) a well-formed frame of a random kind (all 24 kinds, every OFF/LEN/FIN and ECN/dir/close-form combination) with boundary-biased fields (varint size boundaries 2^6/2^14/2^30/2^62, payload lengths around 63/64 and 16383/16384, cid length 1/20, ack chains that end exactly at 0) -> enc, dec(enc ++ tail), oracle decode(encode f) renders f and consumes exactly the encoding; (b) the same as last frame of a packet (length-less STREAM/DATAGRAM); (c) CONNECTION/APPLICATION_CLOSE under a max_len around the truncation threshold (error codes of every varint size), oracles: same code, reason = the announced prefix, and the encoding occupies at most max_len bytes; (d) a packet payload of several frames through Iter, oracle: the same list; (e) encoder preconditions violated (values >= 2^62, ill-formed ack chains) -> err/panic agreement only; (f) malformed: random bytes with a plausible type byte, truncated / bit-flipped / spliced valid encodings -> dec and iter, oracle: never panics. non-trivial = a multi-byte varint, a payload, or an error response occurred";
 
 const V62: u64 = 1 << 62;
 
@@ -407,6 +407,14 @@ pub fn frame(rng: &mut Rng, r: &mut Runner, maxops: usize) {
                 r.nontrivial();
                 if let Some(h) = resp.strip_prefix("ok ") {
                     let h = h.to_string();
+                    // oracle (close_fits_max_len): a close written under max_len occupies at most max_len bytes
+                    // (CONNECTION_CLOSE: for the transport error codes the crate can construct, <= 0x1ff)
+                    if (app || code <= 0x1ff) && hexlen(&h) as u64 > max_len {
+                        r.oracle_fail(&format!(
+                            "key=frame-close-exceeds-max-len `{text}` written under max_len {max_len} occupies {} bytes",
+                            hexlen(&h)
+                        ));
+                    }
                     let d = r.op(&format!("frame dec {h}"));
                     // oracle (close_truncation): decodes to the same code / frame type and a prefix of the reason
                     let w: Vec<&str> = d.split(' ').collect();
